@@ -105,23 +105,25 @@ Definition target_ok (t0 : option content) (ws : list (N * writer)) (t : option 
 (* ---- the staleness decision of _compile_from_file ------------------------------------ *)
 Inductive decision := Reuse | Rewrite.
 
-(* module_state: None = no file; Some (mtime, magic) *)
-Definition decide (cur_magic : N) (src_mtime : N) (m : option (N * N)) : decision :=
+(* module_state: None = no file; Some (mtime, magic, same): same = the module says it was generated from this very
+   source file (its _template_filename; the path of a module file derives from the URI alone, so a lookup over several
+   directories can meet the module of another directory's file -- fix d354100) *)
+Definition decide (cur_magic : N) (src_mtime : N) (m : option (N * N * bool)) : decision :=
   match m with
   | None => Rewrite
-  | Some (mt, magic) => if mt <? src_mtime then Rewrite else if magic =? cur_magic then Reuse else Rewrite
+  | Some (mt, magic, same) => if mt <? src_mtime then Rewrite else if (magic =? cur_magic) && same then Reuse else Rewrite
   end.
 
 (* number of (re)writes _compile_from_file performs: the mtime test first, then, after loading,
-   the magic-number test against the module now on disk *)
-Definition writes_performed (cur_magic src_mtime : N) (m : option (N * N)) : N :=
+   the magic-number and source-file tests against the module now on disk *)
+Definition writes_performed (cur_magic src_mtime : N) (m : option (N * N * bool)) : N :=
   let first := match m with
                | None => true
-               | Some (mt, _) => mt <? src_mtime
+               | Some (mt, _, _) => mt <? src_mtime
                end in
-  let magic_after_first := if first then cur_magic
-                           else match m with Some (_, mg) => mg | None => cur_magic end in
-  (if first then 1 else 0) + (if magic_after_first =? cur_magic then 0 else 1).
+  let ok_after_first := if first then true
+                        else match m with Some (_, mg, same) => (mg =? cur_magic) && same | None => true end in
+  (if first then 1 else 0) + (if ok_after_first then 0 else 1).
 
 (* ---- util.verify_directory, any number of concurrent callers ---------------------------- *)
 (*   while not os.path.exists(dir_):
